@@ -1,9 +1,107 @@
 import HedVerif.Driver.Util
+import HedVerif.Model.Remodel
 open Lean
 namespace HedVerif.Driver.C17
-open HedVerif HedVerif.Driver
+open HedVerif HedVerif.Driver HedVerif.Remodel
 
-/-- requests `{"op":"c17.<name>", ...}` of property C17 (stub: none yet) -/
-def handle (_op : String) (_j : Json) : Option (Except String Json) := none
+/-- Wire format: integers are JSON numbers; a float is `{"$f": "<Python repr>"}` (Lean's JSON reader normalises
+`1.0` to `1`, and the distinction is observable in `str()`); a literal object never has the key `$f`. -/
+def fltOf? (j : Json) : Option Str :=
+  match j with
+  | .obj kvs => match kvs.toList with
+    | [("$f", .str r)] => some r.toList
+    | _ => none
+  | _ => none
+
+partial def toJVal (j : Json) : JVal :=
+  match fltOf? j with
+  | some r => .flt r
+  | none =>
+    match j with
+    | .null => .null
+    | .bool b => .bool b
+    | .num n => if n.exponent == 0 then .int n.mantissa else .flt n.toString.toList
+    | .str s => .str s.toList
+    | .arr xs => .arr (xs.toList.map toJVal)
+    | .obj kvs => .obj (kvs.toList.map fun (k, v) => (k.toList, toJVal v))
+
+def toCell : Json → Except String Cell
+  | .null => .ok .nan
+  | .str s => .ok (.str s.toList)
+  | .num n => if n.exponent == 0 then .ok (.int n.mantissa) else .error "float cell must be {\"$f\": repr}"
+  | j => match fltOf? j with
+    | some r => .ok (.flt r)
+    | none => .error "bad cell"
+
+def toTable (j : Json) : Except String Table := do
+  let cols ← asArr j
+  cols.mapM fun c => do
+    match c with
+    | .arr #[.str name, .arr cells] => pure (name.toList, ← cells.toList.mapM toCell)
+    | _ => throw "bad column"
+
+def tableJson (t : Table) : Json :=
+  jobj [("header", jarr ((header t).map jstr)), ("cols", jarr (t.map fun p => jarr (p.2.map fun c => jstr (pyStr c))))]
+
+def excName : OpErr → String
+  | .raised .KeyError => "KeyError" | .raised .ValueError => "ValueError"
+  | .raised .TypeError => "TypeError" | .raised .IndexError => "IndexError"
+  | .unmodelled => "unmodelled"
+
+def resJson : Except OpErr Table → Json
+  | .ok t => jobj [("ok", tableJson t)]
+  | .error e => jobj [("err", Json.str (excName e))]
+
+def valJson : Val → Json
+  | .str s => jstr s
+  | .int n => jint n
+  | .flt r => jobj [("$f", jstr r)]
+  | .nan => Json.null
+
+def strsJson (xs : List Str) : Json := jarr (xs.map jstr)
+def optStrs (k : String) : Option (List Str) → List (String × Json)
+  | none => [] | some xs => [(k, strsJson xs)]
+
+/-- the parameter dictionary an operation holds (its state) -/
+def opJson : Op → Json
+  | .removeRows c vs => jobj [("column_name", jstr c), ("remove_values", jarr (vs.map valJson))]
+  | .removeColumns cs i => jobj [("column_names", strsJson cs), ("ignore_missing", jbool i)]
+  | .renameColumns m i =>
+    jobj [("column_mapping", jobj (m.map fun kv => (String.ofList kv.1, jstr kv.2))), ("ignore_missing", jbool i)]
+  | .reorderColumns o i k => jobj [("column_order", strsJson o), ("ignore_missing", jbool i), ("keep_others", jbool k)]
+  | .factorColumn c vs ns => jobj ([("column_name", jstr c)] ++ optStrs "factor_values" vs ++ optStrs "factor_names" ns)
+  | .mergeConsecutive c code m i =>
+    jobj ([("column_name", jstr c), ("event_code", valJson code), ("set_durations", jbool false),
+           ("ignore_missing", jbool i)] ++ optStrs "match_columns" m)
+
+def errJson (e : Err) : Json := jarr [jnat e.index, Json.str (toString (repr e.kind))]
+
+/-- `{"op":"c17.validate","ops":[…]}` → number of errors (only emptiness is compared) and their kinds.
+`{"op":"c17.run","ops":[…],"tables":[[[name,[cell…]]…]…],"old":bool}` → the CLI outcome: rejected, or the results of
+the tables pushed in this order through one dispatcher, the parameters afterwards, `hasColumns` per table. -/
+def handle (op : String) (j : Json) : Option (Except String Json) :=
+  match op with
+  | "c17.validate" => some do
+      let raws := (← getArr j "ops").map toJVal
+      let errs := validateParams raws
+      pure <| jobj [("errors", jnat errs.length), ("kinds", jarr (errs.map errJson)),
+                    ("modelled", jbool (parseOps raws).isSome)]
+  | "c17.run" => some do
+      let raws := (← getArr j "ops").map toJVal
+      let tables ← (← getArr j "tables").mapM toTable
+      let old := getBoolD j "old" false
+      let errs := validateParams raws
+      if !errs.isEmpty then
+        pure <| jobj [("outcome", Json.str "rejected"), ("errors", jnat errs.length), ("kinds", jarr (errs.map errJson))]
+      else match parseOps raws with
+        | none => pure <| jobj [("outcome", Json.str "notModelled"), ("errors", jnat 0)]
+        | some ops =>
+          let r := if old then runManyWith opImplOld ops tables else runMany ops tables
+          pure <| jobj [("outcome", Json.str "ran"), ("errors", jnat 0),
+                        ("results", jarr (r.2.map resJson)),
+                        ("state", jarr (r.1.map opJson)),
+                        ("before", jarr (ops.map opJson)),
+                        ("hasColumns", jarr (tables.map fun t => jbool (hasColumns ops t)))]
+  | _ => none
 
 end HedVerif.Driver.C17
